@@ -216,7 +216,7 @@ def directed(ctx):
 def run(ctx):
     if ctx.shard == 0:
         directed(ctx)
-    n = ctx.scale(6000, 400000)
+    n = ctx.scale(36000, 600000)
     for i in range(n):
         c = gen_case(ctx)
         ctx.run_case(judge, c)
